@@ -13,7 +13,7 @@
    The code is the one after the repairs a89778b (INFO_REPLY ignored), 8329c8d (GAP in constant time),
    6f37365 (SequenceNumberSet iterator), df6af72 (ACKNACK base), 1f8d93c (HEARTBEAT first <= 0),
    9291c1e (sequence number i64::MAX), 84c5233 (fragment count vs payload), 91937ff (a GAP only skips
-   numbers contiguous with what was received).
+   numbers contiguous with what was received), 1001a3e (NACK_FRAG only for the addressed writer).
    The decoder is Wire/WireModel.v (parse_message).  Debug profile: `+ 1` / `- 1` on i64 and `+=` on
    u32 panic on overflow.  A participant is the list of its stateful readers (user-defined first,
    then builtin: the order of the `chain` in handle_data) and of its stateful writers; every
@@ -374,7 +374,8 @@ Definition writer_acknack (src rid wid : list Z) (st : snset) (count : Z) (w : s
   then with_rproxies w (upd_proxy rp_guid (src ++ rid) (acknack_proxy w st count) (sw_proxies w))
   else Ok (w, []).
 
-(* on_nack_frag_submessage_received on the matching reader proxy (the writer id is not compared) *)
+(* on_nack_frag_submessage_received on the matching reader proxy (1001a3e: only by the writer the
+   submessage is addressed to) *)
 Definition nackfrag_proxy (w : swriter) (s : Z) (fs : fnset) (count : Z) (rp : rproxy) : res (rproxy * outs) :=
   if rp_rel rp && (rp_nf rp <? count) then
     let rp1 := mk_rp (rp_guid rp) (rp_rel rp) (rp_sent rp) (rp_acked rp) (rp_an rp) count (rp_first_rel rp) in
@@ -388,8 +389,10 @@ Definition nackfrag_proxy (w : swriter) (s : Z) (fs : fnset) (count : Z) (rp : r
     | None => Ok (rp1, [[OGap (repeat 0 4) (sw_eid w) s (Z.min i64_max (s + 1))]])     (* saturating_add *)
     end
   else Ok (rp, []).
-Definition writer_nackfrag (src rid : list Z) (s : Z) (fs : fnset) (count : Z) (w : swriter) : res (swriter * outs) :=
-  with_rproxies w (upd_proxy rp_guid (src ++ rid) (nackfrag_proxy w s fs count) (sw_proxies w)).
+Definition writer_nackfrag (src rid wid : list Z) (s : Z) (fs : fnset) (count : Z) (w : swriter) : res (swriter * outs) :=
+  if list_eqb (sw_eid w) wid
+  then with_rproxies w (upd_proxy rp_guid (src ++ rid) (nackfrag_proxy w s fs count) (sw_proxies w))
+  else Ok (w, []).
 
 (* ------------------------------------------------ handle_data: one submessage *)
 Definition on_readers (st : pstate) (f : sreader -> res (sreader * outs)) : res (pstate * outs) :=
@@ -420,8 +423,8 @@ Definition handle_sub (rs : rstate) (st : pstate) (m : psub) : res (rstate * pst
       r <- on_readers st (reader_hbf (rs_src rs) wid count) ;; Ok (rs, fst r, snd r)
   | AckNack _ rid wid state count =>
       r <- on_writers st (writer_acknack (rs_src rs) rid wid state count) ;; Ok (rs, fst r, snd r)
-  | NackFrag rid _ s fstate count =>
-      r <- on_writers st (writer_nackfrag (rs_src rs) rid s fstate count) ;; Ok (rs, fst r, snd r)
+  | NackFrag rid wid s fstate count =>
+      r <- on_writers st (writer_nackfrag (rs_src rs) rid wid s fstate count) ;; Ok (rs, fst r, snd r)
   end.
 
 Fixpoint handle_subs (rs : rstate) (st : pstate) (l : list psub) : res (pstate * outs) :=
